@@ -482,20 +482,24 @@ Qed.
 Section SB2.
 Variable rank : ip -> N.
 
+Lemma opt_pool_eqb_eq x y : opt_pool_eqb x y = true -> x = y.
+Proof. destruct x, y; cbn; try discriminate; try reflexivity. intros H. apply N.eqb_eq in H. congruence. Qed.
+
 Lemma set_balancer_mem c s o k oc :
   set_balancer rank c s (Some o) k = Some oc -> c_have_pools c = true ->
   exists v ok, converge rank (c_mem c) s o k = CR v ok /\ c_mem (oc_state oc) = cv_mem v /\
     match oc_write oc with
-    | None => cv_status v = o_status o
-    | Some (st, _) => st = cv_status v
+    | None => cv_status v = o_status o /\ cv_annot v = o_annot o
+    | Some (st, an) => st = cv_status v /\ an = cv_annot v
     end.
 Proof.
   unfold set_balancer. intros H Hp. rewrite Hp in H. cbn [negb] in H.
   destruct (converge rank (c_mem c) s o k) as [v ok|] eqn:EC; [|discriminate].
   exists v, ok. split; [reflexivity|].
   destruct (negb (negb (ips_eqb (cv_status v) (o_status o)) || negb (opt_pool_eqb (cv_annot v) (o_annot o)))) eqn:Hch;
-    injection H as <-; cbn; split; try reflexivity.
-  apply negb_true_iff, orb_false_iff in Hch. destruct Hch as [H1 _]. apply negb_false_iff, ips_eqb_eq in H1. exact H1.
+    injection H as <-; cbn; split; try reflexivity; try (split; reflexivity).
+  apply negb_true_iff, orb_false_iff in Hch. destruct Hch as [H1 H2]. apply negb_false_iff, ips_eqb_eq in H1.
+  apply negb_false_iff, opt_pool_eqb_eq in H2. auto.
 Qed.
 
 Lemma set_balancer_self c s o k oc :
@@ -505,7 +509,7 @@ Lemma set_balancer_self c s o k oc :
 Proof.
   intros H Hp Hm He Hst. destruct (set_balancer_mem _ _ _ _ _ H Hp) as (v & ok & EC & -> & Hw).
   assert (Hv : cv_status v = []).
-  { destruct (oc_write oc) as [[st an]|]; congruence. }
+  { destruct (oc_write oc) as [[st an]|]; [destruct Hw|destruct Hw]; congruence. }
   destruct (by_name (s_pools (c_mem c))) as [|p0 pr] eqn:Ebn.
   - apply no_offer_no_pools. destruct (converge_frame _ _ _ _ _ _ _ EC) as [_ HF2]. rewrite HF2. exact Ebn.
   - eapply converge_unserved; try eassumption. rewrite Ebn. discriminate.
